@@ -15,6 +15,8 @@ SPEC = {
         {"name": "TestLongWaits", "quick": 12, "thorough": 40, "shards_quick": 2, "shards_thorough": 4, "timeout": 3000},
         # step sections, 1-6 s per case: 24 cases per process concurrently; thorough = 240 per process, 24 at a time
         {"name": "TestStepProfile", "quick": 24, "thorough": 240, "shards_quick": 2, "shards_thorough": 4, "timeout": 3000},
+        # drawn startup schedules / rps schedules started in the past, 7-13 s per case: 16 cases per process concurrently; thorough = 160 per process
+        {"name": "TestStartup", "quick": 16, "thorough": 160, "shards_quick": 2, "shards_thorough": 4, "timeout": 3000},
     ],
     "rule": ("generated profiles (once/const/line, optionally two chained; 1-12 tokens per part over 1-4 s), 1-4 instances, shared or "
              "per-instance, discard_overflow on/off, cyclic response-time histories drawn from {0, 50ms, 0.5s, 1.7s, 1.9s, 2.1s, 2.4s, 3s, "
@@ -58,7 +60,16 @@ SPEC = {
              "instances, shared or per-instance, discard on/off, responses of 0-50 ms (one case in five with discard on: also one of 0.5-2.6 s); "
              "the profile-time reference expands a step section into its levels by the documented meaning (schedgen.Flatten) and chains them; "
              "non-trivial = requests of limited sections are scheduled behind a step level without a request and shots were compared with "
-             "profile times."),
+             "profile times. "
+             "TestStartup (same oracle): the pool's `startup` schedule is a drawn dimension (everywhere else: once(N), all instances at "
+             "the start of the run): instance_step (1-2 at once, then 1-2 more every 2.3-3.6 s), bursts of 1-2 separated by a pause of that "
+             "length, a steady rate of one instance per 2.3-3.6 s, a ramp from zero; shared steady / ramp rps schedule of 3-10 requests per "
+             "second for 4.5-5.5 s, first response of every gun slower than the distance between two instance starts (one case in four: "
+             "0.5-2.1 s), later ones 0-2.6 s, so that a newcomer asks for its FIRST request while the earlier instances sit in a response "
+             "and the profile is 1.6-3.5 s behind; three cases in eight: the rps schedule object was started (Schedule.Start) 0.5-4 s in the "
+             "past before the pool got it (1-3 instances, shared or per-instance; the profile time counts from that start), so that the "
+             "first request of the run is overdue; one case in six discard off (2-4 requests); 16 cases concurrently per process; "
+             "non-trivial = some instance asked for its first request >= 1 s into the run or found it >= 0.3 s overdue."),
     "floors": {"TestTiming/late_1_2s": 0.1, "TestTiming/late_2_3s": 0.1, "TestTiming/late_ge_3s": 0.07,
                "TestTiming/discard_off": 0.066, "TestTiming/instances_gt_1": 0.3, "TestTiming/discards_seen": 0.2, "TestTiming/token_waited_for_right_after_a_discard": 0.08,
                "TestNoEarlyShotDense/shots_within_1ms_after_their_time": 0.3,
@@ -77,6 +88,11 @@ SPEC = {
                "TestStepProfile/step_fractional_from": 0.05, "TestStepProfile/step_every_level_has_requests": 0.04,
                "TestStepProfile/shots_compared_with_profile_time": 0.44,
                "TestStepProfile/instances_gt_1": 0.2, "TestStepProfile/discard_off": 0.1,
+               "TestStartup/discard_on_late_started_instance_first_request_ge_2s_overdue": 0.14,
+               "TestStartup/discard_on_prestarted_schedule_first_request_ge_2s_overdue": 0.08,
+               "TestStartup/discard_on_instance_first_request_overdue_lt_2s": 0.11,
+               "TestStartup/gradual_startup": 0.23, "TestStartup/instance_started_ge_1s_into_the_run": 0.17,
+               "TestStartup/rps_schedule_started_in_the_past": 0.2, "TestStartup/discard_off": 0.09,
                "TestLongWaits/single_wait_ge_5s": 0.3, "TestLongWaits/single_wait_ge_8s": 0.08, "TestLongWaits/instances_gt_1": 0.2},
     "manifest": {
         "technique": "property-based testing (rapid generators, batch-parallel, real time) with an interval oracle over measured instants",
@@ -88,7 +104,10 @@ SPEC = {
                  "'discarded' / 777 line per token that was not fired, one faithful line per fired request. 'Scheduled time' is judged "
                  "twice: against the token the schedule handed out and against the timetable computed from the profile itself (sections "
                  "chained from the start of the schedule), including profiles with an unlimited section, for single waits of up to "
-                 "11 s (thorough 26 s), and for `step` sections whose lowest levels hold no request (such a level still lasts its duration)."),
+                 "11 s (thorough 26 s), and for `step` sections whose lowest levels hold no request (such a level still lasts its duration). The same "
+                 "oracle judges the first request an instance picks up when instances start while the run is under way (drawn startup "
+                 "schedules: instance_step, steady, ramp, bursts with a pause) behind instances that sit in slow responses, and when the "
+                 "rps schedule was started in the past."),
         "note": ("Cannot test the boundary at exactly 2.000 s: lateness between the two measured instants is accepted either way. Joins "
                  "token to shot by goroutine id parsed from runtime.Stack. Machine load delays A and B together and can only move a "
                  "sample into the accepted band. With discard off the run-length bound (profile + tokens x slowest response + 5 s) is only "
